@@ -218,6 +218,7 @@ type Exec struct {
 	inits      map[*ssa.Package]*initResult
 	initRunning *ssa.Package
 	rootEnv    *SpecEnv
+	cryptoObjs map[int]*cryptoObj // modelled cipher / hash objects (object id -> immutable part)
 }
 
 func (e *Exec) idxSort() Sort {
